@@ -255,7 +255,10 @@ func NewKernel(ctx context.Context, log *slog.Logger, cfg KernelConfig) (*Kernel
 		return nil, err
 	}
 	initState.Voting.RoundView.PrevCommitProof = committingProof
-	initState.NextRound.RoundView.PrevCommitProof = committingProof
+	// The two views must not share the proof's map:
+	// resetting the next round view at the next height shift clears its map in place,
+	// which would also wipe the proof held by the (by then committing) voting view.
+	initState.NextRound.RoundView.PrevCommitProof = committingProof.Clone()
 
 	// Note the initial active sessions.
 	if initState.Committing.Height > 0 {
